@@ -102,6 +102,8 @@ func Seeds() []string {
 		"n equ 3\nblk i for n\nspl blk, i\nrof\njmp blk\n",
 		"org s\nx equ (1+2)*3\ns add.ab #x, @-x\n djn.f s, <s\n",
 		";redcode-94\n;name t\n;author a\n;assert CORESIZE > 1\nnop\n",
+		"i for 0-1\ndat i\nrof\ndat 1\n",
+		"n equ 2\nj for n-3\ndat j\nrof\nk for 1\ndat k\nrof\n",
 	}
 }
 
